@@ -281,7 +281,7 @@ Proof.
       apply Ht; rewrite E; reflexivity.
     + destruct (proj1 (cur_ok_node c cur cc id Hcn Hnode) Hok) as [Hnc [[k0 v0] Hr]].
       destruct (del_keeps_cursor K V cmp IDXNUM PIVOT cmp_lt_eq cmp_antisym pivot_ok k c c' ch cur id (c_pos cur) k0 v0 He Hinv Hu Hnc Hr)
-        as [id' p' H1 H2 H3|id' p' k1 v1 Hk H1 H2 H3 H4|id' p' k1 v1 Hk H1 H2 H3 H4|Hk H1 H2 H3].
+        as [id' p' H1 H2 H3|id' p' k1 v1 Hk H1 H2 H3 H4 H5|id' p' k1 v1 Hk H1 H2 H3 H4 H5|Hk H1 H2 H3 H5].
       * exact (node_cursor_ok c' _ id' p' _ H1 H3).
       * exact (node_cursor_ok c' _ id' p' _ H1 H3).
       * exact (node_cursor_ok c' _ id' p' _ H1 H3).
